@@ -473,13 +473,13 @@ func runPure() {
 		sc := scopeCase{scopes: l}
 		scopesCase(sc)
 	}
-	for i := 0; i < run.Scale(12000, 600000); i++ {
+	for i := 0; i < run.Scale(40000, 1000000); i++ {
 		scopesCase(genScopeCase(r))
 	}
 	for _, l := range [][]string{nil, {""}, {"*"}, {"", ""}, {"pull", "", "push"}, {"*", "pull"}, {"pull", "*"}, {"b", "a", "b"}, {"", "*"}} {
 		actionsCase(l)
 	}
-	for i := 0; i < run.Scale(4000, 200000); i++ {
+	for i := 0; i < run.Scale(10000, 300000); i++ {
 		n := r.Intn(6)
 		var l []string
 		for j := 0; j < n; j++ {
@@ -491,7 +491,7 @@ func runPure() {
 		}
 		actionsCase(l)
 	}
-	for i := 0; i < run.Scale(2000, 100000); i++ {
+	for i := 0; i < run.Scale(8000, 200000); i++ {
 		a, b := genScopeCase(r), genScopeCase(r)
 		allScopesCase(a.scopes, b.scopes)
 	}
@@ -500,7 +500,7 @@ func runPure() {
 		"Bearer realm=\"x\",realm=\"y\"", "Bearer realm=\"\xc3\xa9\"", "Bea\xc5\xbfer realm=x", "Bearer realm = \"x\" , scope = \"a b\""} {
 		challengeCase(h, nil)
 	}
-	for i := 0; i < run.Scale(8000, 400000); i++ {
+	for i := 0; i < run.Scale(25000, 600000); i++ {
 		genChallenge(r)
 	}
 }
